@@ -891,3 +891,53 @@ async fn d22_compaction_output_history() {
 	eprintln!("D22-MARK after compaction");
 	tree.close().await.unwrap();
 }
+
+// D23: Tree is Clone, and dropping ANY clone closes the shared core and releases the directory lock while the
+// other handle is still alive: a second instance can open the directory next to it.
+#[tokio::test(flavor = "multi_thread")]
+async fn d23_dropping_a_clone_releases_the_directory_lock() {
+	let d = td();
+	let opts = mk_opts(d.path().to_path_buf(), |_| {});
+	let t1 = Tree::new(Arc::clone(&opts)).unwrap();
+	put(&t1, b"k", b"v").await;
+	let t2 = t1.clone();
+	drop(t2); // spawns core.close() on the runtime
+	tokio::time::sleep(std::time::Duration::from_millis(500)).await;
+	// t1 is still alive and was never closed or dropped by its owner
+	let second = Tree::new(Arc::clone(&opts));
+	assert!(second.is_err(), "D23: a second instance opened the directory while the first handle is still alive");
+	// and the surviving handle still works
+	put(&t1, b"k2", b"v2").await;
+}
+
+// D24: an open that fails after the lock was taken (here: corrupt WAL, AbsoluteConsistency) leaks the directory lock:
+// background tasks spawned by Core::new keep Arc<CoreInner> (and with it the LockFile) alive forever.
+#[tokio::test(flavor = "multi_thread")]
+async fn d24_failed_open_leaks_the_directory_lock() {
+	let d = td();
+	let opts = mk_opts(d.path().to_path_buf(), |o| o.flush_on_close = false);
+	{
+		let t = Tree::new(Arc::clone(&opts)).unwrap();
+		put(&t, b"k", b"v").await;
+		put(&t, b"k2", b"v2").await;
+		t.close().await.unwrap();
+	}
+	// damage the middle of the only WAL segment
+	let wal_dir = d.path().join("wal");
+	let seg = std::fs::read_dir(&wal_dir).unwrap().filter_map(|e| e.ok()).map(|e| e.path()).find(|p| p.extension().map(|x| x == "wal").unwrap_or(false));
+	let seg = seg.expect("a WAL segment");
+	let mut bytes = std::fs::read(&seg).unwrap();
+	assert!(bytes.len() >= 16);
+	let mid = bytes.len() / 2;
+	bytes[mid] ^= 0xff;
+	std::fs::write(&seg, &bytes).unwrap();
+	let mut strict = (*opts).clone();
+	strict.wal_recovery_mode = crate::WalRecoveryMode::AbsoluteConsistency;
+	let r1 = Tree::new(Arc::new(strict));
+	assert!(r1.is_err(), "precondition: the strict open must fail on the damaged segment");
+	drop(r1);
+	tokio::time::sleep(std::time::Duration::from_millis(300)).await;
+	// no store is open on the directory now: a tolerant open must be able to take the lock
+	let r2 = Tree::new(Arc::clone(&opts));
+	assert!(r2.is_ok(), "D24: directory still locked after a FAILED open: {:?}", r2.err());
+}
